@@ -42,6 +42,7 @@ type strIter struct {
 	s   string
 	pos int
 }
+
 // RawPtr is an unsafe.Pointer that does not point into the interpreted heap: an address handed out by the
 // simulated environment (mapped device memory). Only arithmetic and comparison are possible on it.
 type RawPtr struct{ addr *Term }
@@ -55,7 +56,6 @@ type Interp struct {
 	globals map[*ssa.Global]*Cont
 	addrOf  map[Ptr]uint64
 	ptrAt   map[uint64]Ptr
-	nextAdr uint64
 	steps   int
 	budget  int
 	funcs   map[string]string
@@ -67,11 +67,20 @@ type Interp struct {
 	tier    int
 	merged  int
 	noMerge bool
+	sched   *Sched  // non-nil once the harness has spawned a goroutine (verifGo)
+	thread  *thread // the interpreted goroutine this interpreter instance runs
+	shared  *sharedState
+	curPos  token.Pos
+}
+
+// sharedState holds mutable scalars shared by the interpreter instances of all goroutines of one path.
+type sharedState struct {
+	nextAdr uint64
 }
 
 func NewInterp(prog *ssa.Program, tb *TB, ex *Explorer, targets map[*ssa.Package]bool, funcs map[string]string, budget int) *Interp {
 	return &Interp{prog: prog, tb: tb, ex: ex, globals: map[*ssa.Global]*Cont{}, addrOf: map[Ptr]uint64{}, ptrAt: map[uint64]Ptr{},
-		nextAdr: 0xc000000000, funcs: funcs, targets: targets, errType: types.Universe.Lookup("error").Type(), budget: budget,
+		shared: &sharedState{nextAdr: 0xc000000000}, funcs: funcs, targets: targets, errType: types.Universe.Lookup("error").Type(), budget: budget,
 		pool: map[*Cont][]Value{}, inited: map[*ssa.Package]bool{}, noMerge: os.Getenv("VERIF_NOMERGE") != ""}
 }
 
@@ -232,11 +241,17 @@ func (in *Interp) load(p Ptr) Value {
 	if p.c == nil {
 		in.goPanicStr("nil pointer dereference")
 	}
+	if in.sched != nil {
+		in.sched.onAccess(in.thread, p, false, in.curPos)
+	}
 	return copyVal(p.c.slots[p.i])
 }
 func (in *Interp) store(p Ptr, v Value) {
 	if p.c == nil {
 		in.goPanicStr("nil pointer dereference")
+	}
+	if in.sched != nil {
+		in.sched.onAccess(in.thread, p, true, in.curPos)
 	}
 	p.c.slots[p.i] = copyVal(v)
 }
@@ -408,6 +423,7 @@ func (in *Interp) run(fr *frame, _ interface{}) (ret Value) {
 			case *ssa.Panic:
 				panic(goPanic{in.get(fr, x.X)})
 			case *ssa.Store:
+				in.curPos = x.Pos()
 				in.store(in.get(fr, x.Addr).(Ptr), in.get(fr, x.Val))
 			case *ssa.RunDefers:
 				in.runDefers(fr)
@@ -641,6 +657,7 @@ func (in *Interp) eval(fr *frame, v ssa.Value) Value {
 		a := in.get(fr, x.X)
 		switch x.Op {
 		case token.MUL:
+			in.curPos = x.Pos()
 			return in.load(a.(Ptr))
 		case token.NOT:
 			return in.tb.Not(a.(*Term))
@@ -889,8 +906,8 @@ func (in *Interp) convert(v Value, from, to types.Type) Value {
 		}
 		a, ok := in.addrOf[p]
 		if !ok {
-			in.nextAdr += 0x100
-			a = in.nextAdr
+			in.shared.nextAdr += 0x100
+			a = in.shared.nextAdr
 			in.addrOf[p] = a
 			in.ptrAt[a] = p
 		}
